@@ -158,6 +158,14 @@ impl Gen {
                                 self.queue.push_back(IsoInput { target: t, data: x, origin: format!("{d} of {n}") });
                             }
                         }
+                        // decimal numbers of text inputs at their boundaries (the three smallest seeds)
+                        let mut small: Vec<(String, Vec<u8>)> = self.seeds.iter().filter(|s| s.1.len() <= 8192).cloned().collect();
+                        small.sort_by_key(|s| s.1.len());
+                        for (n, b) in small.iter().take(3) {
+                            for (d, x) in mutate::decimal_sweep(b, 40) {
+                                self.queue.push_back(IsoInput { target: t, data: x, origin: format!("{d} of {n}") });
+                            }
+                        }
                         if !self.queue.is_empty() {
                             return true;
                         }
